@@ -176,9 +176,10 @@ Fixpoint skip_b64 (s : bytes) : bytes :=
   | c :: r => if is_b64 c then skip_b64 r else s
   | [] => []
   end.
+Definition b64_shape (rest : bytes) : bool :=
+  match rest with [] => true | [a] => a =? 61 | [a; b] => (a =? 61) && (b =? 61) | _ => false end.
 Definition b64_validate (s : bytes) : bool :=
-  (match skip_b64 s with [] => true | [61] => true | [61; 61] => true | _ => false end)
-  && Nat.eqb (Nat.modulo (length s) 4) 0.
+  b64_shape (skip_b64 s) && Nat.eqb (Nat.modulo (length s) 4) 0.
 
 (* binary_base64_decode. pad_chars (sic) is the number of octets in the last, padded group:
      0 when the text is empty or does not end in =, 1 when it ends in ==, 2 when it ends in one =.
